@@ -162,6 +162,8 @@ pub fn run(prop: &str, shard: u64, nshards: u64) -> i32 {
                     Ok(c) => (1830692..=2147439588).contains(&r) && c.reformation() == Some(r as i32),
                     Err(ReformingError::InvalidReformation) => r < 1830692,
                     Err(ReformingError::Arithmetic) => r > 2147439588,
+                    #[allow(unreachable_patterns)]
+                    Err(_) => false,
                 };
                 cx.check(ok, || format!("reforming({r}) = {res:?}"));
             }
